@@ -1,7 +1,7 @@
 (* C01 — the returned circulation solves the general numerical lifting-line equation, or an error is raised.
    Statements only.  Models: Model/Kernel.v, Model/Residual.v, Model/ErrPolicy.v. *)
 From Coq Require Import Reals Lra List Lia Bool.
-From MuxV Require Import Base.Num Base.Vec3 Base.RInst Model.Kernel Model.Residual Model.ErrPolicy Proofs.ResidualP.
+From MuxV Require Import Base.Num Base.Vec3 Base.RInst Model.Kernel Model.Residual Model.ErrPolicy Model.Helpers Model.Flow Proofs.ResidualP Proofs.FlowP.
 Import ListNotations.
 Local Open Scope R_scope.
 
@@ -110,3 +110,15 @@ Example C01_policy_example :
   solve_forces_outcome SScipy GLinear IRaise IRaise f = RaisedNotConverged /\
   solve_forces_outcome SNonlinear GPrevious IWarn IRaise f = Loads 1 false.
 Proof. split; reflexivity. Qed.
+
+(* ---- what the residual is evaluated with: the air velocity seen at a point at body offset r from the CG is wind - v + R^T (r x w),
+   the trailing vortices leave along the unit vector of that velocity at the joints and, when the sheet is constrained, have no
+   component along the body z-axis (scene.py _calc_invariant_flow_properties; run against the live arrays after every solve path) ---- *)
+Theorem C01_flow_at_points : forall (q : quat R) (v wind w r vj : v3 R),
+  v_inf_and_rot q v wind w r = vadd (vsub wind v) (quat_inv_trans q (vcross r w)) /\
+  (vnorm2 vj <> 0 -> vnorm2 (trailing_dir false q vj) = 1) /\
+  (vnorm2 (body_z q) = 1 -> vdot (body_z q) (trailing_dir true q vj) = 0).
+Proof.
+  intros. split; [apply v_inf_and_rot_spec|]. split; [apply trailing_is_unit | apply constrained_in_body_plane].
+Qed.
+Print Assumptions C01_flow_at_points.
